@@ -1,7 +1,9 @@
 (* C03, yearday / nlyearday: the conversion through the ydayidx table (regenerated from /repo into
    gen/RdTables.v on every run) followed by __add__ selects the n-th day of the operand's year
-   (yearday) resp. the date that day n has in a non-leap year (nlyearday), for n = 1..365.
-   yearday = 366 in a leap year is REFUTED (finding F-C03-yearday366). *)
+   (yearday) resp. the date that day n has in a non-leap year (nlyearday).
+   yearday = 366 in a leap year used to give 30 December (finding F-C03-yearday366); fixed in /repo
+   by f29aa05 (`if 59 < yearday < 366: leapdays = -1`), the model mirrors the fixed code and the
+   theorem now covers every day 1..year_len of the operand's year. *)
 From Coq Require Import ZArith List Bool Lia ZifyBool.
 From V Require Import base.Cal gen.RdTables rd.RdBase rd.RdModel rd.RdSpec rd.RdAddThm rd.RdDiffThm rd.RdAddThm2.
 Import ListNotations.
@@ -50,7 +52,7 @@ Lemma dim_ge_nonleap y mo : dim 2001 mo <= dim y mo.
 Proof. unfold dim. change (is_leap 2001) with false. destruct (mo =? 2); [destruct (is_leap y); lia | lia]. Qed.
 
 Lemma mk_yearday n mo dd : n <> 0 -> yday_lookup ydayidx 0 0 n = Some (mo, dd) ->
-  mk (kw_yearday n) = Ok (mkrd rel0 (if 59 <? n then -1 else 0)
+  mk (kw_yearday n) = Ok (mkrd rel0 (if (59 <? n) && (n <? 366) then -1 else 0)
                                (mkabs None (Some mo) (Some dd) None None None None) None).
 Proof.
   intros Hn L. unfold mk, kw_yearday.
@@ -67,13 +69,13 @@ Proof.
 Qed.
 
 (* adding a delta that only sets month and day (and possibly leapdays) to a DATE *)
-Lemma add_month_day lp mo dd y m0 d0 :
-  valid_ymd y m0 d0 = true -> 1 <= mo <= 12 -> 1 <= dd <= dim y mo ->
-  1 <= ord_of_ymd y mo dd + (if (2 <? mo) && is_leap y then lp else 0) <= max_ord ->
+Lemma add_month_day_clip lp mo dd y m0 d0 :
+  valid_ymd y m0 d0 = true -> 1 <= mo <= 12 -> 1 <= dd ->
+  1 <= ord_of_ymd y mo (Z.min dd (dim y mo)) + (if (2 <? mo) && is_leap y then lp else 0) <= max_ord ->
   add_dt (mkrd rel0 lp (mkabs None (Some mo) (Some dd) None None None None) None) (PD y m0 d0)
-  = Ok (date_of_ord (ord_of_ymd y mo dd + (if (2 <? mo) && is_leap y then lp else 0))).
+  = Ok (date_of_ord (ord_of_ymd y mo (Z.min dd (dim y mo)) + (if (2 <? mo) && is_leap y then lp else 0))).
 Proof.
-  intros V Hmo Hdd Hr. apply res_opt_some.
+  intros V Hmo Hdd Hr. pose proof (dim_pos y mo) as DP. apply res_opt_some.
   set (d := mkrd rel0 lp (mkabs None (Some mo) (Some dd) None None None None) None).
   assert (W : wf_rd d = true).
   { unfold wf_rd, norm_rel, d.
@@ -85,12 +87,23 @@ Proof.
   cbn [rel ab wd leapdays rel0 f_years f_months a_year a_month oget ym_of fst snd].
   replace ((12 * y + (mo - 1) + 12 * 0 + 0) / 12) with y by lia.
   replace ((12 * y + (mo - 1) + 12 * 0 + 0) mod 12 + 1) with mo by lia.
-  unfold spec_base. cbn [ab a_day oget day_of]. rewrite Z.min_l by lia.
-  assert (VB : valid_dt (PD y mo dd) = true) by (cbn [valid_dt]; unfold valid_ymd in *; lia).
+  unfold spec_base. cbn [ab a_day oget day_of].
+  set (dc := Z.min dd (dim y mo)) in *.
+  assert (VB : valid_dt (PD y mo dc) = true) by (cbn [valid_dt]; unfold valid_ymd, dc in *; lia).
   rewrite VB. unfold spec_dur, spec_wd. cbn [rel rel0 f_days leapdays lin wd]. rewrite Z.add_0_l.
   unfold at_lin.
   match goal with |- context [if (1 <=? ?a) && (?a <=? max_ord) then _ else _] =>
     destruct ((1 <=? a) && (a <=? max_ord)) eqn:C end; [|exfalso; lia].
+  reflexivity.
+Qed.
+
+Lemma add_month_day lp mo dd y m0 d0 :
+  valid_ymd y m0 d0 = true -> 1 <= mo <= 12 -> 1 <= dd <= dim y mo ->
+  1 <= ord_of_ymd y mo dd + (if (2 <? mo) && is_leap y then lp else 0) <= max_ord ->
+  add_dt (mkrd rel0 lp (mkabs None (Some mo) (Some dd) None None None None) None) (PD y m0 d0)
+  = Ok (date_of_ord (ord_of_ymd y mo dd + (if (2 <? mo) && is_leap y then lp else 0))).
+Proof.
+  intros V Hmo Hdd Hr. rewrite add_month_day_clip; rewrite ?Z.min_l by lia; try assumption; try lia.
   reflexivity.
 Qed.
 
@@ -103,10 +116,11 @@ Proof.
   intros Hn V. destruct (yd_lookup_facts n Hn) as (mo & dd & L & Hmo & Hsum & Hdd & H59).
   pose proof (dim_ge_nonleap y mo) as DG. pose proof (dbm_vs_nonleap y mo Hmo) as DB.
   assert (Hy : 1 <= y <= 9999) by (unfold valid_ymd in V; lia).
-  set (lp := if 59 <? n then -1 else 0).
+  set (lp := if (59 <? n) && (n <? 366) then -1 else 0).
   assert (EO : ord_of_ymd y mo dd + (if (2 <? mo) && is_leap y then lp else 0) = days_before_year y + n).
   { unfold ord_of_ymd, lp. rewrite DB.
-    destruct (59 <? n) eqn:E1; destruct (2 <? mo) eqn:E2; destruct (is_leap y); cbn [andb]; lia. }
+    destruct (59 <? n) eqn:E1; destruct (n <? 366) eqn:E3; destruct (2 <? mo) eqn:E2; destruct (is_leap y);
+    cbn [andb]; lia. }
   assert (RG : 1 <= days_before_year y + n <= max_ord).
   { assert (days_before_year 1 <= days_before_year y) by (apply days_before_year_mono; lia).
     assert (days_before_year (y + 1) <= days_before_year 10000) by (apply days_before_year_mono; lia).
@@ -148,14 +162,39 @@ Proof.
     apply f_equal. apply date_of_ord_lin. exact VB.
 Qed.
 
-(* ---- yearday = 366 in a leap year: the model (= the code) answers 30 December, the 366th day
-   is 31 December *)
-Theorem yearday_366_leap_refuted :
-  exists y d, is_leap y = true /\ valid_ymd y 1 1 = true /\ mk (kw_yearday 366) = Ok d /\
-    add_dt d (PD y 1 1) = Ok (PD y 12 30) /\ spec_yearday_date y 366 = Some (y, 12, 31).
+(* ---- yearday = 366 in a leap year: 31 December (was 30 December before /repo f29aa05) *)
+Theorem yearday_366_leap y m0 d0 : is_leap y = true -> valid_ymd y m0 d0 = true ->
+  exists d, mk (kw_yearday 366) = Ok d /\ spec_yearday_date y 366 = Some (y, 12, 31) /\
+            add_dt d (PD y m0 d0) = Ok (PD y 12 31).
 Proof.
-  exists 2000. eexists. split; [reflexivity|]. split; [reflexivity|]. split; [vm_compute; reflexivity|].
-  split; vm_compute; reflexivity.
+  intros L V. assert (Hy : 1 <= y <= 9999) by (unfold valid_ymd in V; lia).
+  assert (D12 : dim y 12 = 31) by reflexivity.
+  assert (V31 : valid_ymd y 12 31 = true) by (unfold valid_ymd; rewrite D12; lia).
+  assert (O : ord_of_ymd y 12 31 = days_before_year y + 366).
+  { unfold ord_of_ymd, dbm. rewrite L. reflexivity. }
+  eexists. split; [apply (mk_yearday 366 12 32); [lia | vm_compute; reflexivity]|]. split.
+  - unfold spec_yearday_date, year_len. rewrite L. cbn [Z.leb Z.compare andb].
+    replace (ord_of_ymd y 1 1 + 366 - 1) with (ord_of_ymd y 12 31) by (rewrite O; unfold ord_of_ymd; rewrite dbm_1; lia).
+    rewrite ymd_of_ord_of_ymd by (rewrite ?D12; lia). reflexivity.
+  - change ((59 <? 366) && (366 <? 366)) with false. cbv iota.
+    pose proof (ord_of_ymd_range _ _ _ V31) as RG.
+    rewrite add_month_day_clip; rewrite ?D12; try assumption; try lia;
+      change (Z.min 32 31) with 31; destruct ((2 <? 12) && is_leap y); rewrite ?Z.add_0_r; try lia.
+    + apply f_equal. apply date_of_ord_lin. exact V31.
+    + apply f_equal. apply date_of_ord_lin. exact V31.
+Qed.
+
+(* every day of the operand's year *)
+Theorem yearday_spec_full n y m0 d0 : 1 <= n <= year_len y -> valid_ymd y m0 d0 = true ->
+  exists d yy mm dd,
+    mk (kw_yearday n) = Ok d /\ spec_yearday_date y n = Some (yy, mm, dd) /\
+    add_dt d (PD y m0 d0) = Ok (PD yy mm dd).
+Proof.
+  intros Hn V. destruct (Z_le_gt_dec n 365) as [H|H].
+  - apply yearday_spec; [lia | exact V].
+  - assert (n = 366 /\ is_leap y = true) as [-> L].
+    { unfold year_len in Hn. destruct (is_leap y); [split; [lia | reflexivity] | lia]. }
+    destruct (yearday_366_leap y m0 d0 L V) as (d & A & B & C). exists d, y, 12, 31. auto.
 Qed.
 
 Example yearday_spec_example :
@@ -226,4 +265,84 @@ Proof.
         + destruct (v' =? 0) eqn:Ev'; injection EY as <- _; lia.
         + injection EY as <- _. lia. }
     rewrite N, G, WW. specialize (Hdd Y1). cbn [andb]. lia.
+Qed.
+
+(* ---- the same for datetime operands: the time of day is kept *)
+Lemma dt_of_lin_parts n hh mi ss us : valid_time hh mi ss us = true ->
+  dt_of_lin ((n - 1) * us_day + tod hh mi ss us) =
+  let '(y, m, d) := ymd_of_ord n in PDT y m d hh mi ss us.
+Proof.
+  intros T. pose proof (tod_range _ _ _ _ T) as R. unfold dt_of_lin.
+  set (t := tod hh mi ss us) in *.
+  replace (((n - 1) * us_day + t) / us_day + 1) with n by (unfold us_day in *; lia).
+  replace (((n - 1) * us_day + t) mod us_day) with t by (unfold us_day in *; lia).
+  destruct (ymd_of_ord n) as [[y m] d].
+  unfold valid_time in T. unfold t, tod, us_sec. f_equal; lia.
+Qed.
+
+Lemma add_month_day_dt lp mo dd y m0 d0 hh mi ss us :
+  valid_dt (PDT y m0 d0 hh mi ss us) = true -> 1 <= mo <= 12 -> 1 <= dd <= dim y mo ->
+  1 <= ord_of_ymd y mo dd + (if (2 <? mo) && is_leap y then lp else 0) <= max_ord ->
+  add_dt (mkrd rel0 lp (mkabs None (Some mo) (Some dd) None None None None) None) (PDT y m0 d0 hh mi ss us)
+  = Ok (let '(yy, mm, d') := ymd_of_ord (ord_of_ymd y mo dd + (if (2 <? mo) && is_leap y then lp else 0))
+        in PDT yy mm d' hh mi ss us).
+Proof.
+  intros V Hmo Hdd Hr. apply res_opt_some.
+  set (d := mkrd rel0 lp (mkabs None (Some mo) (Some dd) None None None None) None).
+  assert (W : wf_rd d = true).
+  { unfold wf_rd, norm_rel, d.
+    cbn [rel ab wd rel0 f_months f_hours f_minutes f_seconds f_us a_year a_month a_day opt_ok].
+    change (Z.abs 0) with 0. lia. }
+  rewrite add_dt_spec by (try exact W; exact V).
+  rewrite spec_add_body. change (carries_time d) with false. cbv iota.
+  unfold spec_body. cbv zeta. clear W. subst d.
+  cbn [rel ab wd leapdays rel0 f_years f_months a_year a_month oget ym_of fst snd].
+  replace ((12 * y + (mo - 1) + 12 * 0 + 0) / 12) with y by lia.
+  replace ((12 * y + (mo - 1) + 12 * 0 + 0) mod 12 + 1) with mo by lia.
+  unfold spec_base. cbn [ab a_day a_hour a_minute a_second a_us oget day_of]. rewrite Z.min_l by lia.
+  cbn [valid_dt] in V. apply andb_prop in V. destruct V as [V T].
+  assert (VB : valid_dt (PDT y mo dd hh mi ss us) = true)
+    by (cbn [valid_dt]; rewrite T; unfold valid_ymd in *; lia).
+  rewrite VB. unfold spec_dur, spec_wd. cbn [rel rel0 f_days f_hours f_minutes f_seconds f_us leapdays lin wd].
+  set (adj := if (2 <? mo) && is_leap y then lp else 0) in *.
+  pose proof (tod_range _ _ _ _ T) as R.
+  replace ((ord_of_ymd y mo dd - 1) * us_day + tod hh mi ss us +
+           ((0 + adj) * us_day + 0 * 3600000000 + 0 * 60000000 + 0 * us_sec + 0))
+    with ((ord_of_ymd y mo dd + adj - 1) * us_day + tod hh mi ss us) by (unfold us_day, us_sec; lia).
+  unfold at_lin.
+  match goal with |- context [if ?c then Some _ else None] => destruct c eqn:C end;
+    [|exfalso; unfold lin_max_dt, max_ord, us_day in *; lia].
+  rewrite dt_of_lin_parts by exact T. reflexivity.
+Qed.
+
+Theorem yearday_spec_datetime n y m0 d0 hh mi ss us :
+  1 <= n <= 365 -> valid_dt (PDT y m0 d0 hh mi ss us) = true ->
+  exists d yy mm dd,
+    mk (kw_yearday n) = Ok d /\ spec_yearday_date y n = Some (yy, mm, dd) /\
+    add_dt d (PDT y m0 d0 hh mi ss us) = Ok (PDT yy mm dd hh mi ss us).
+Proof.
+  intros Hn V. destruct (yd_lookup_facts n Hn) as (mo & dd & L & Hmo & Hsum & Hdd & H59).
+  pose proof (dim_ge_nonleap y mo) as DG. pose proof (dbm_vs_nonleap y mo Hmo) as DB.
+  assert (Hy : 1 <= y <= 9999) by (cbn [valid_dt] in V; unfold valid_ymd in V; lia).
+  set (lp := if (59 <? n) && (n <? 366) then -1 else 0).
+  assert (EO : ord_of_ymd y mo dd + (if (2 <? mo) && is_leap y then lp else 0) = days_before_year y + n).
+  { unfold ord_of_ymd, lp. rewrite DB.
+    destruct (59 <? n) eqn:E1; destruct (n <? 366) eqn:E3; destruct (2 <? mo) eqn:E2; destruct (is_leap y);
+    cbn [andb]; lia. }
+  assert (RG : 1 <= days_before_year y + n <= max_ord).
+  { assert (days_before_year 1 <= days_before_year y) by (apply days_before_year_mono; lia).
+    assert (days_before_year (y + 1) <= days_before_year 10000) by (apply days_before_year_mono; lia).
+    rewrite days_before_year_succ in *. unfold year_len in *.
+    change (days_before_year 1) with 0 in *. change (days_before_year 10000) with 3652059 in *.
+    unfold max_ord. destruct (is_leap y); lia. }
+  eexists. exists (fst (fst (ymd_of_ord (days_before_year y + n)))),
+                  (snd (fst (ymd_of_ord (days_before_year y + n)))),
+                  (snd (ymd_of_ord (days_before_year y + n))).
+  split; [apply (mk_yearday n mo dd); [lia | exact L]|]. split.
+  - unfold spec_yearday_date.
+    destruct ((1 <=? n) && (n <=? year_len y)) eqn:C; [|unfold year_len in C; destruct (is_leap y); lia].
+    replace (ord_of_ymd y 1 1 + n - 1) with (days_before_year y + n) by (unfold ord_of_ymd; rewrite dbm_1; lia).
+    destruct (ymd_of_ord _) as [[a b] c]. reflexivity.
+  - fold lp. rewrite add_month_day_dt; [| exact V | exact Hmo | lia | rewrite EO; exact RG].
+    rewrite EO. destruct (ymd_of_ord _) as [[a b] c]. reflexivity.
 Qed.
